@@ -90,7 +90,7 @@ def c03 (op : String) (args : List String) (impl : String) : Verdict :=
         | _ => []
       mk impl model ([noCrash impl] ++ clauses)
     | _, _, _, _, _, _, _, _, _ => bad "exchange-args"
-  | "newstream", [n, _failAt] =>
+  | "newstream", [n, failAtS] =>
     -- each packet's 17 octets must be a window of the entropy stream; windows strictly increasing and
     -- non-overlapping (fresh, never reused); a failed Read may surface as a panic (documented)
     match n.toNat? with
@@ -101,11 +101,16 @@ def c03 (op : String) (args : List String) (impl : String) : Verdict :=
       let rec fresh : List Nat → Bool
         | a :: b :: rest => decide (a + 17 ≤ b) && fresh (b :: rest)
         | _ => true
-      let ok := decide (toks.length = n) && allFound && fresh offs
+      -- the scripted source fails at most ONCE (at its failAt-th Read, if failAt ≥ 1): at most one call may panic, and
+      -- none when the source never fails
+      let panics := (toks.filter (· == "P")).length
+      let mayPanic := if (failAtS.toInt?.getD 0) ≥ 1 then 1 else 0
+      let ok := decide (toks.length = n) && allFound && fresh offs && decide (panics ≤ mayPanic)
       let model := if ok then impl else "every packet's 17 octets are a fresh, non-overlapping window of crypto/rand.Reader's stream"
       mk impl model [noCrash impl,
         ("identifier_and_authenticator_come_from_the_entropy_source", allFound),
         ("entropy_is_never_reused", fresh offs),
+        ("panics_only_when_the_entropy_source_fails", decide (panics ≤ mayPanic)),
         ("one_result_per_call", decide (toks.length = n))]
     | none => bad "newstream-n"
   | "new", [code, secret] =>
